@@ -3,8 +3,12 @@ from pyvc.registry import contract
 
 TH = ["cli", "events", "types", "values", "sql"]
 
-contract("monkeytype.cli:display_sample_count", props=["C10"], theories=TH, mode="assumed", pure=False, effects="print",
-         params={"traces": "Seq[Trace]", "stderr": "Stream"}, result="none", note="prints one line per function; outside every property",
+contract("monkeytype.cli:display_sample_count", props=["C10"], theories=TH, pure=False, effects="print",
+         params={"traces": "Seq[Trace]", "stderr": "Stream"}, result="none", note="prints one line per function, to the error stream only (collections.Counter is an unspecified finite mapping)",
+         loops={0: {"iter": "sample_counter.items()",
+                    "inv": {"grow": "len(effects()) >= len(old(effects())) and forall(range_(0, len(old(effects()))), lambda q: nth(effects(), q) is nth(old(effects()), q))",
+                            "stderr-only": "forall(range_(len(old(effects())), len(effects())), lambda q: nth(nth(effects(), q), 1) is stderr and is_print(nth(effects(), q), stderr, ''))"},
+                    "havoc_effects": True}},
          ensures={"post:only-stderr": "len(effects()) >= len(old(effects())) and forall(range_(0, len(old(effects()))), lambda q: nth(effects(), q) is nth(old(effects()), q))"
                                       " and forall(range_(len(old(effects())), len(effects())), lambda q: nth(nth(effects(), q), 1) is stderr and is_print(nth(effects(), q), stderr, ''))"})
 
